@@ -50,6 +50,12 @@ func c08Chain(seed int64, steps int) [][]string {
 				next = append(next, l)
 			}
 		}
+		if s%3 == 2 {
+			// a deletion-only step (the diff holds '-' lines only)
+			files = append(files, next)
+			cur = next
+			continue
+		}
 		// additions from another world of the same layout (its subnets are dropped: one subnet is never declared twice with different locations)
 		w2 := gen.GenWorld(rng, gen.WorldOpts{Layout: rng.Intn(4)})
 		for _, l := range w2.Lines {
@@ -140,6 +146,18 @@ func c08Diff(a, b []string, rng *rand.Rand) []string {
 		}
 	}
 	rng.Shuffle(len(out), func(i, j int) { out[i], out[j] = out[j], out[i] })
+	// diff line orders: fully shuffled; all deletions (shuffled) before all additions (and the reverse);
+	// text-sorted; reverse text-sorted - the statement says "whatever the order of diff lines"
+	switch rng.Intn(5) {
+	case 1:
+		sort.SliceStable(out, func(i, j int) bool { return out[i][0] == '-' && out[j][0] == '+' })
+	case 2:
+		sort.SliceStable(out, func(i, j int) bool { return out[i][0] == '+' && out[j][0] == '-' })
+	case 3:
+		sort.Strings(out)
+	case 4:
+		sort.Sort(sort.Reverse(sort.StringSlice(out)))
+	}
 	return out
 }
 
@@ -274,9 +292,9 @@ func runC08(r *report.Run) {
 	r.Assume("value order under one key is not compared (multiset), as the statement says")
 	nchains := r.Pick(30, 1000)
 	for i := 0; i < nchains; i++ {
-		steps := 2
+		steps := 3
 		if i%5 == 0 {
-			steps = 5
+			steps = 6
 		}
 		for _, v2 := range []bool{false, true} {
 			c := c08Case{Seed: r.Seed*23000009 + int64(i), Steps: steps, V2: v2}
